@@ -70,10 +70,16 @@ def gen_class(rnd, name):
     return {"name": name, "fields": fields, "required": req, "additional": False}
 
 
+def class_src(c):
+    """Source of a class AST.  `shared_src` (harness/c18shared.py): the source as written by a user who binds a
+    Field INSTANCE to a module-level name and uses it in several declarations."""
+    return c["shared_src"] if c.get("shared_src") else S.class_src(c)
+
+
 def realise(c):
     ns = {}
     exec(IMPORTS, ns)
-    exec(S.class_src(c), ns)
+    exec(class_src(c), ns)
     return ns[c["name"]], ns
 
 
@@ -457,7 +463,7 @@ class Case:
 
     def source(self):
         return IMPORTS + "from typedpy.errors import standard_readable_error_for_typedpy_exception\n\n" + \
-            S.class_src(self.cast) + "\nkwargs = dict(%s)\n" % ", ".join("%s=%s" % (k, G.py_src(v)) for k, v in self.kw) + \
+            class_src(self.cast) + "\nkwargs = dict(%s)\n" % ", ".join("%s=%s" % (k, G.py_src(v)) for k, v in self.kw) + \
             "document = %r\n" % (self.doc,)
 
     def fresh(self):
@@ -916,6 +922,12 @@ def evaluate_case(case, rep, streams, stats_only=False):
                 {"case": case, "field": n, "which": which, "site": "%s:%d" % (site["t"]["file"], site["t"]["line"])}))
             rep.stat("render", "site:%s:%s" % (site["t"]["cls"], site["t"]["func"]))
 
+    # ---- which raise statement rejects a field that the deserializer's own validation let through
+    for n, o in orc.items():
+        if not o["pre"] and o["post"] and o["post"]["site"] is not None:
+            streams.setdefault("ctoronly", []).append((E.nlit(o["post"]["site"]["t"]["id"]),
+                                                       {"case": case, "field": n, "origin": o["post"]["origin"], "mode": "deser", "ff": False}))
+
     # ---- the four configurations
     for mode in ("ctor", "deser"):
         invalid = inv_ctor if mode == "ctor" else inv_deser
@@ -973,7 +985,15 @@ def evaluate_case(case, rep, streams, stats_only=False):
                     pre = {n for n in invalid if orc[n]["pre"]}
                     post_only = {n for n in invalid if not orc[n]["pre"] and orc[n]["post"]}
                     if pre and post_only and (set(invalid) - reported) <= post_only | set(tainted) and post_only - reported:
-                        key += "/constructor-only-errors-lost"
+                        # errors that only the constructor detects are dropped when the pre-validation of the
+                        # deserializer rejects another field (F19).  WHICH check is constructor-only is a fact about
+                        # the code: one finding per lost error, keyed by the raise site that detects it, so that a check
+                        # the deserializer used to run itself and now leaves to the constructor is not covered by F19.
+                        for n in sorted(post_only - reported):
+                            fails.append(("%s/constructor-only-error-lost/%s" % (key, orc[n]["post"]["origin"]),
+                                          "%s; the error of field %s (%s) is detected by the constructor only: %r" % (
+                                              text, n, case.fields[n]["t"], orc[n]["post"]["inner"]), mode, ff))
+                        continue
                 fails.append((key, text, mode, ff))
             # expected element suffix, when exactly this one element was corrupted
             if mode == "ctor" and ff and obs["helper"][0] == "ok" and not tainted:
@@ -1155,6 +1175,9 @@ def replay(obj):
         r = R()
         nested_checks(r, only=(obj.get("group", "NESTED_SRC"), obj["doc"]))
         return 1 if getattr(r, "n", 0) else 0
+    if obj.get("shared_history"):
+        from harness import c18shared
+        return c18shared.replay(obj, _rereify)
     if "cls_ast" not in obj:
         print(obj.get("detail", "no concrete input in this replay file"))
         return 2
@@ -1167,7 +1190,7 @@ def replay(obj):
         def stat(self, *a, **k): pass
     streams = {"render": [], "construct": [], "deser": [], "parse": []}
     fails = evaluate_case(case, Rep(), streams)
-    print(S.class_src(case.cast))
+    print(class_src(case.cast))
     print("kwargs   :", {k: v for k, v in case.py.items()})
     print("document :", case.doc)
     for mode in ("ctor", "deser"):
@@ -1230,7 +1253,7 @@ def run(rep, tier):
     ]
     ws_ok, pats_ok = regex_oracle_checks(rep)
     assert Structure.failing_fast()
-    streams = {"render": [], "construct": [], "deser": [], "parse": [], "guard": []}
+    streams = {"render": [], "construct": [], "deser": [], "parse": [], "guard": [], "ctoronly": []}
     all_fails = []
     cases = []
     for i in range(ncases):
@@ -1270,7 +1293,7 @@ def run(rep, tier):
         # correspondence streams (the same model functions see every random case and every third point)
         npts += 1
         sink = streams if (tier != "quick" or npts % 3 == core.seed() % 3) else \
-            {"render": streams["render"], "construct": [], "deser": [], "parse": []}
+            {"render": streams["render"], "construct": [], "deser": [], "parse": [], "ctoronly": streams["ctoronly"]}
         try:
             fails = evaluate_case(case, rep, sink)
         finally:
@@ -1291,6 +1314,19 @@ def run(rep, tier):
     assert Structure.failing_fast()
     rep.obligation("state:fail-fast-switch-restored", Structure.failing_fast(), "")
 
+    # ---- Field instances shared between declarations x histories of operations on one class
+    from harness import c18shared
+    try:
+        n_hist = c18shared.run(rep, tier, core.seed())
+    finally:
+        Structure.set_fail_fast(True)
+    if os.environ.get("C18_TIMING"):
+        print("[c18] with %d shared-instance histories: %.1fs" % (n_hist, _t.time() - _t0))
+    if os.environ.get("C18_KEYS"):
+        for v in rep.violations:
+            if v["key"].startswith("C18/shared"):
+                print("[c18] key %4d %s" % (v["count"], v["key"]))
+
     # ---- the validation chains: real field objects against the generated guard programs
     from harness import c18guards
     try:
@@ -1305,6 +1341,7 @@ def run(rep, tier):
                  ("parse", "pcase", ["parse_mismatch", "parse_unmodelled"]),
                  ("construct", "ccase", ["construct_mismatch", "construct_hyps"]),
                  ("deser", "dcase", ["deser_mismatch"]),
+                 ("ctoronly", "N", ["ctor_only_unlisted"]),
                  ("guard", "gcase", ["guard_mismatch", "guard_schema_bad", "guard_bare_under_hyps", "guard_hyps",
                                      "guard_unmodelled"])]
         results, extra = eval_streams(rep, specs, streams, extra=["obsolete_restrictions"])
@@ -1376,7 +1413,8 @@ def run(rep, tier):
                 info = items[mism[0]][1]
                 if not explained:
                     model = {"render": "Render.v + Gen/Templates.v", "parse": "Parse.v", "construct": "Collect.v",
-                             "deser": "Collect.v", "guard": "Guard.v + Gen/GuardProgs.v + GuardSchema.v"}[name]
+                             "deser": "Collect.v", "ctoronly": "Collect.v: ctor_only_sites",
+                             "guard": "Guard.v + Gen/GuardProgs.v + GuardSchema.v"}[name]
                     what = ("model (Errors/%s) and typedpy differ on %d of %d generated cases; no clause of C18 failed on "
                             "any explored input. First: %s" % (model, len(mism), len(items),
                                                                {k: v for k, v in info.items() if k not in ("case", "cast", "r")}))
@@ -1422,6 +1460,9 @@ def run(rep, tier):
              "at top level and in one (quick: rotating with the seed; thorough: every) position among Array/Deque item, positional "
              "item, Tuple, Set, Map key, Map value; each under construction and Deserializer, fail-fast on and off; guard: every "
              "leaf kind x (wrong-value classes + boundary values) and random scalar fields run through the real validation chain "
-             "and through the generated chain inside Coq; nested: fixed two-level and generated three-level documents with 1-3 "
+             "and through the generated chain inside Coq; accounting: every bound / sign / size / uniqueness / length violation of "
+             "the right class in every position next to a field the deserializer rejects; shared: one Field instance used in two "
+             "declarations (every ordered pair of positions x leaf kinds, quick: 2 rotating leaves) x a history of 5 argument sets on "
+             "one class x 4 configurations; nested: fixed two-level and generated three-level documents with 1-3 "
              "point corruptions. distinct = distinct (field shapes, corruption kinds) / lattice point / (kind, value class, "
              "outcome); non-trivial = at least one invalid field")
